@@ -1,3 +1,4 @@
+OVERLAY = ['modes']   # overlay wrapper groups this property's harnesses call (overlay/<pkg>/zz_vp_<tag>.go)
 HARNESSES = {
     'ArcSegments': dict(mode='X', validate=0, oracle=8, inproc_ms=4000, ext_s=30, job_timeout_s=400, split={'large': 2, 'sweep': 2}, opts=dict(feas_timeout_ms=300, ifconv=False)),
     'Gate': dict(split={'hot': 4, 'width': 3, 'two': 2}),
